@@ -154,6 +154,19 @@ def tabulate_api(text, ops):
         return ("internal", "%s: %s" % (type(e).__name__, str(e)[:160]))
 
 
+def tabulate_api_raw(text, additional):
+    try:
+        cp = ConfigParser(io.StringIO(text), additional=additional)
+        tab = Configuration().read_from_parser(cp)
+        out = io.StringIO()
+        tab.write(out)
+        return ("ok", out.getvalue())
+    except ConfigurationException as e:
+        return ("config", str(e)[:160])
+    except Exception as e:
+        return ("internal", "%s: %s" % (type(e).__name__, str(e)[:160]))
+
+
 def tabulate_cli(text, args, workdir):
     inp, outp = os.path.join(workdir, "in.ini"), os.path.join(workdir, "out.dat")
     with open(inp, "w") as f:
@@ -565,12 +578,18 @@ def _view_one(idx):
 
 
 def _sp_tuple(p, fs, lst):
+    """identity (the first parameter of the rendered definition) and species of a parsed entry"""
     s = p.species
+    ident = p.potential_form_instance.parameters[0]
     if lst == "pair":
-        return [s.species_a, s.species_b]
+        return [ident, s.species_a, s.species_b]
     if lst == "dens" and fs:
-        return [s.from_species, s.to_species]
-    return [s]
+        return [ident, s.from_species, s.to_species]
+    return [ident, s]
+
+
+def _want_tuple(e):
+    return [e["id"]] + [SPL[x] for x in e["sp"]]
 
 
 def _history_job(job):
@@ -602,7 +621,7 @@ def _history_job(job):
                     lst = ev[2]
                     attr = {"pair": "pair", "embed": "eam_embed", "dens": "eam_density_fs" if doc["fs"] else "eam_density"}[lst]
                     got = [_sp_tuple(p, doc["fs"], lst) for p in getattr(views[ev[1]], attr)]
-                    want = [[SPL[x] for x in e["sp"]] for e in by[json.dumps(filt[ev[1]], sort_keys=True)]["filtered"][lst]]
+                    want = [_want_tuple(e) for e in by[json.dumps(filt[ev[1]], sort_keys=True)]["filtered"][lst]]
                     n += 1
                     if got != want and len(bad) < 5:
                         bad.append(("view-not-independent", "history %s: reading %s of view %d (%s %s) gives %s, expected %s" % (
@@ -620,6 +639,8 @@ def _session_job(hists):
     """histories of a process that parses several files (ViewSession.tla): parse / create view / read / release, replayed on
     ConfigParser and FilteredConfigParser; every read is compared with the hand-deleted lists of the view's own file"""
     import gc
+    gc.collect()
+    gc.freeze()          # what exists now is not scanned again: the collections at the release events only look at the session's objects
     want_of = {(c["doc"], c["view"]["mode"], tuple(sorted(c["view"]["S"]))): c["filtered"] for c in _VCASES}
     texts = [v_render(d, "setfl_fs" if d["fs"] else "setfl") for d in _VDOCS]
     bad, n = [], 0
@@ -650,7 +671,7 @@ def _session_job(hists):
                     for lst in ("pair", "embed", "dens"):
                         attr = {"pair": "pair", "embed": "eam_embed", "dens": "eam_density_fs" if doc["fs"] else "eam_density"}[lst]
                         got = [_sp_tuple(q, doc["fs"], lst) for q in getattr(views[ev["v"]], attr)]
-                        want = [[SPL[x] for x in e["sp"]] for e in want_doc[lst]]
+                        want = [_want_tuple(e) for e in want_doc[lst]]
                         n += 1
                         if got != want and len(bad) < 3:
                             bad.append(("view-of-another-file", "history %s: reading %s of view %d (%s %s of file %d) gives %s, the hand-deleted file has %s" % (
@@ -663,6 +684,96 @@ def _session_job(hists):
             views.clear()
             gc.collect()
     return dict(bad=bad, n=n)
+
+
+def c13_traces(run, tier, seed):
+    """code -> specification: long random sessions on the real classes, recorded with the real identity of every parser and
+    the entries every read returned; ViewSessionTrace.tla is the judge"""
+    import gc
+    gc.collect()
+    gc.freeze()
+    rnd = random.Random(seed + 77)
+    inv = {v: k for k, v in SPL.items()}
+    texts = [v_render(d, "setfl_fs" if d["fs"] else "setfl") for d in _VDOCS]
+    n_traces = 40 if tier == "quick" else 400
+    traces, reuse = [], 0
+    for t in range(n_traces):
+        pool = [dict(mode=rnd.choice(["include", "exclude"]), S=sorted(rnd.sample([1, 2, 3, 9], rnd.randint(0, 4)))) for _ in range(rnd.randint(1, 3))]
+        parsers, pdoc, views, vinfo, addr_of, evs = {}, {}, {}, {}, {}, []
+        n_parse = 0
+        for step in range(rnd.randint(12, 40)):
+            choices = []
+            if len(parsers) < 4 and n_parse < 16:
+                choices += ["parse"] * 2
+            if parsers:
+                choices += ["release", "create", "create"]
+            if views:
+                choices += ["read"] * 4
+            e = rnd.choice(choices)
+            if e == "parse":
+                p = rnd.choice([x for x in (1, 2, 3, 4) if x not in parsers])
+                d = rnd.randint(1, len(_VDOCS))
+                parsers[p] = ConfigParser(io.StringIO(texts[d - 1]))
+                pdoc[p] = d
+                n_parse += 1
+                a = addr_of.setdefault(id(parsers[p]), len(addr_of) + 1)
+                if a < len(addr_of) or sum(1 for x in evs if x["e"] == "parse" and x["a"] == a):
+                    reuse += 1
+                evs.append(dict(e="parse", p=p, d=d, a=a))
+            elif e == "release":
+                p = rnd.choice(sorted(parsers))
+                for v in [v for v in views if vinfo[v][0] == p]:
+                    del views[v]
+                    del vinfo[v]
+                del parsers[p]
+                gc.collect()
+                evs.append(dict(e="release", p=p))
+            elif e == "create":
+                p = rnd.choice(sorted(parsers))
+                v = rnd.randint(1, 4)
+                f = rnd.choice(pool)
+                labels = [SPL[x] for x in f["S"]]
+                views[v] = FilteredConfigParser(parsers[p], include=labels) if f["mode"] == "include" else FilteredConfigParser(parsers[p], exclude=labels)
+                vinfo[v] = (p, f)
+                evs.append(dict(e="create", v=v, p=p, filter=f))
+            else:
+                v = rnd.choice(sorted(views))
+                p, f = vinfo[v]
+                fs = _VDOCS[pdoc[p] - 1]["fs"]
+                obs = {}
+                for lst in ("pair", "embed", "dens"):
+                    attr = {"pair": "pair", "embed": "eam_embed", "dens": "eam_density_fs" if fs else "eam_density"}[lst]
+                    got = [_sp_tuple(q, fs, lst) for q in getattr(views[v], attr)]
+                    obs[lst] = [dict(id=int(g[0]), sp=[inv[x] for x in g[1:]]) for g in got]
+                evs.append(dict(e="read", v=v, filter=f, obs=obs))
+        traces.append(dict(ev=evs))
+        parsers.clear()
+        views.clear()
+        gc.collect()
+    # canary: one recorded entry replaced by an entry of another file - the trace must be rejected
+    canary = None
+    for t in traces:
+        for k, ev in enumerate(t["ev"]):
+            if ev["e"] == "read" and ev["obs"]["pair"]:
+                c = json.loads(json.dumps(t))
+                c["ev"][k]["obs"]["pair"][0]["id"] += 100
+                canary = c
+                break
+        if canary:
+            break
+    batch = traces + ([canary] if canary else [])
+    res, rep = tlc.batch_validate("ViewSessionTrace", "ViewSessionTrace.cfg", batch, timeout=1800)
+    run.add_tlc("ViewSessionTrace", res, exhaustive=False)
+    for k, (reached, total, complete) in enumerate(rep[:len(traces)]):
+        run.traces += 1
+        if not complete:
+            ev = traces[k]["ev"][reached - 1] if 0 < reached <= len(traces[k]["ev"]) else None
+            run.violation(dict(engine="inidoc", clause="trace-rejected", route="api"),
+                          "[trace-rejected] session %d: the specification accepts %d of %d recorded events; the next one is %s" % (k, reached - 1, total, json.dumps(ev)[:400]),
+                          dict(trace=traces[k], reached=reached))
+    if canary and rep[-1][2]:
+        run.machinery("trace validation: the corrupted canary session was accepted")
+    run.notes["session_traces"] = dict(n=len(traces), events=sum(len(t["ev"]) for t in traces), parses_on_a_reused_address=reuse, canary_rejected=bool(canary and not rep[-1][2]))
 
 
 def load_session_histories(run, tier, seed):
@@ -763,6 +874,8 @@ def main_c13(tier, seed):
                 for clause, msg, h in r["bad"][:1]:
                     run.violation(dict(engine="inidoc", clause=clause, route="api"), "[%s] %s" % (clause, msg), dict(history=h))
             run.replayed += len(shists)
+            if not run.machinery_errors:
+                c13_traces(run, tier, seed)
             run.rule = "cases = 3 files (EAM, Finnis-Sinclair, a second EAM) x 32 views (include/exclude x subsets of 3 species + an unknown label) x 7 / 3 targets x {CLI, API}; histories = all sequences of <= 3 create/read events over 2 views from seeded pools of 4 filters; session histories = the witness history of every distinct state of ViewSession.tla (parse / create / read / release over 2 parser handles, 3 files, 2 views, 2 filters) that ends in a read; non-trivial = proper non-empty species set"
     except tlc.TLCError as e:
         run.machinery(str(e))
@@ -951,6 +1064,9 @@ def dup_variants(opname, fam):
     return out
 
 
+# the documented built-in forms; as.buck4 is registered by the implementation after the user's forms ("late")
+BUILTIN_EARLY = ["bornmayer", "buck", "constant", "coul", "exponential", "exp_spline", "hbnd", "lj", "morse", "polynomial", "sqrt", "tang_toennies", "zbl", "zero"]
+
 # operator -> (families, section, original key, the second spelling(s), second value)
 D_OPS = {
     "pair-same": (["pair", "eam"], "Pair", "Al-Cu", ["Al-Cu"], "as.polynomial 99 1"),
@@ -971,7 +1087,10 @@ D_OPS = {
     "table-same": (["pair"], "Table-Form:tf", None, ["Table-Form:tf"], None),
     "table-ws": (["pair", "eam"], "Table-Form:tf", None, ["Table-Form: tf", "Table-Form:tf ", "Table-Form:  tf  "], None),
     "table-vs-formula": (["pair", "eam"], "Table-Form:tf", None, ["Table-Form:f", "Table-Form:g"], None),
-    "table-vs-builtin": (["pair"], "Table-Form:tf", None, ["Table-Form:as.buck", "Table-Form:as.zero", "Table-Form:as.polynomial"], None),
+    "table-vs-builtin": (["pair"], "Table-Form:tf", None, ["Table-Form:as.%s" % n for n in BUILTIN_EARLY], None),
+    "table-vs-late-builtin": (["pair", "eam"], "Table-Form:tf", None, ["Table-Form:as.buck4"], None),
+    "form-vs-builtin": (["pair"], "Potential-Form", "f(r,a)", ["as.%s(r,a)" % n for n in BUILTIN_EARLY] + ["as.zero(r)", "as.polynomial(r,a,b)"], "r + 99"),
+    "form-vs-late-builtin": (["pair", "eam"], "Potential-Form", "f(r,a)", ["as.buck4(r,a)", "as.buck4(r)", "as.buck4(r,A,rho,C,r_detach,r_min,r_attach)"], "r + 99"),
     "section-twice": (["pair", "eam"], "Pair", None, ["Pair"], None),
 }
 
@@ -1015,10 +1134,11 @@ def main_c20(tier, seed):
                 ops = tlc.read_ndjson(os.path.join(res.outdir, "cases.ndjson"))
         finally:
             tlc.cleanup(res)
-        r2 = tlc.run("Dups", "Dups_code.cfg", timeout=600)
-        run.notes["unrepaired_model_violates"] = r2.violated
-        if r2.violated != "NoDuplicateSurvives":
-            run.machinery("anti-vacuity: the unrepaired reader model should violate NoDuplicateSurvives, TLC says %r" % r2.violated)
+        for cfg in ("Dups_code.cfg", "Dups_late.cfg", "Dups_addraw.cfg"):
+            r2 = tlc.run("Dups", cfg, timeout=600)
+            run.notes["unrepaired_model_violates_" + cfg[:-4]] = r2.violated
+            if r2.violated != "NoDuplicateSurvives":
+                run.machinery("anti-vacuity: the unrepaired reader model %s should violate NoDuplicateSurvives, TLC says %r" % (cfg, r2.violated))
         # IniDoc's reader (abstract files with duplicated raw / normalised keys and sections)
         res3 = tlc.run("IniDoc", "IniDoc_dups.cfg", env={"EMIT": "1"}, coverage=True, keep=True, timeout=900)
         try:
@@ -1042,20 +1162,26 @@ def main_c20(tier, seed):
                 for o in ops:
                     fams, sec, orig, spellings, val2 = D_OPS[o["op"]]
                     for fam in fams:
+                        base_text = dup_render(fam, "pair-same", "Al-Cu", "adjacent").replace("Al-Cu : as.polynomial 99 1\n", "")
                         for orig_k, spelling in dup_variants(o["op"], fam):
-                            for position in ("adjacent", "end", "before"):
-                                text = dup_render(fam, o["op"], spelling, position, orig_k)
+                            for position in (("adjacent", "end", "before") if o["route"] == "file" else ("added",)):
+                                text = dup_render(fam, o["op"], spelling, position, orig_k) if o["route"] == "file" else base_text
                                 for route in ("api", "cli"):
-                                    got = tabulate_text(text) if route == "api" else tabulate_cli(text, [], d)
+                                    if o["route"] == "file":
+                                        got = tabulate_text(text) if route == "api" else tabulate_cli(text, [], d)
+                                    elif route == "api":
+                                        got = tabulate_api_raw(text, [ConfigParserOverrideTuple(sec, spelling, val2)])
+                                    else:
+                                        got = tabulate_cli(text, ["-a", "%s:%s=%s" % (sec, spelling, val2)], d)
                                     run.evaluations += 1
                                     run.replayed += 1
-                                    run.distinct(json.dumps([o["op"], fam, orig_k, spelling, position]))
+                                    run.distinct(json.dumps([o["op"], o["route"], fam, orig_k, spelling, position]))
                                     if len(run.samples) < 3 and position == "end" and route == "api" and o["op"] in ("pair-reversed-ws", "table-vs-formula", "fsdens-ws"):
                                         run.sample(dict(operator=o["op"], family=fam, second_spelling=spelling, position=position, file=text, outcome=got[0]))
                                     if got[0] != "config":
                                         clause = "duplicate-accepted" if got[0] == "ok" else "internal-exception"
-                                        run.violation(dict(engine="inidoc", clause=clause, op=o["op"], route=route),
-                                                      "[%s] %s: second definition %r (%s, %s model): %s" % (clause, o["op"], spelling, position, fam,
+                                        run.violation(dict(engine="inidoc", clause=clause, op=o["op"], route=route, given=o["route"]),
+                                                      "[%s] %s via %s: second definition %r (%s, %s model): %s" % (clause, o["op"], route, spelling, position, fam,
                                                                                                         "silently accepted" if got[0] == "ok" else got[1]),
                                                       dict(op=o, family=fam, spelling=spelling, position=position, file=text))
                 global TH
@@ -1071,7 +1197,7 @@ def main_c20(tier, seed):
                                           "[duplicate] file with a key / section defined twice is not refused (%s): %s" % (got[0], text[:300]), dict(case=c, file=text))
             finally:
                 shutil.rmtree(d, ignore_errors=True)
-            run.rule = "cases = 20 duplication operators (TLC) x families x spellings of the second definition x 3 positions x {API, CLI}; non-trivial = every case (each holds a genuine second definition with a different value); distinct by (operator, family, spelling, position)"
+            run.rule = "cases = 23 duplication operators x {written in the file, given by --add-item / additional=} (TLC) x families x spellings of the second definition x 3 positions x {API, CLI}; non-trivial = every case (each holds a genuine second definition with a different value); distinct by (operator, family, spelling, position)"
     except tlc.TLCError as e:
         run.machinery(str(e))
     return run.finish()
